@@ -9,6 +9,10 @@ TRUST = ("Trusted base: go/ssa, the gosx interpreter and its intrinsics/stubs (l
 
 # id -> (level text, level_note extra, design_ref)
 CLAIMS = {
+ "C10": ("For every type (TypeID symbolic over all 12 ids, normalised unions, lists, objects, tuples to the stated depth) the solver shows Is is reflexive, "
+         "TypeSum is an upper bound / commutative / idempotent, TypeIntersection is contained in both operands, NonNullable removes exactly NULL, and for every "
+         "value within the C09 bounds the value matches Value.Type(). Two known findings (object/tuple deep merge, unnamed object fields) are excluded by narrow predicates and re-exhibited on every run.",
+         "Bounds: nesting depth <= 1 per operand (values: depth 2), <= 1-2 fields/elements, field names from {a,b,c}.", "§5 C10"),
  "C09": ("For every pair/triple of octosql values within the bounds (all 2^64 bit patterns per Int/Float/Duration leaf, every byte value per string byte, "
          "containers to the stated depth) the solver shows Compare is reflexive, antisymmetric, transitive, Equal agrees with it and compare-equal values "
          "hash equally (Value.Hash, the hash step used by containers and HashManyValues). Bounded model checking of the real functions; right level because the "
